@@ -9,13 +9,13 @@ TECHNIQUE = "runtime monitoring on a virtual-time simulated network: bursts of C
 LEVEL_TEXT = "Each generated burst (2-8 messages, 1-3 endpoints, every reaction kind at several delays) is run against the real MessageManager; predicted first-transmission instants, exchange intervals, FIFO order and completion of every request are compared with the recorded history."
 LEVEL_NOTE = "Trusted: harness/simnet.py wire log and virtual clock, the queue model in checks/c14.py. Submission order is recorded at the MessageManager.send_message boundary (instance wrapper installed from the harness). Peers never answer with a separate response while the exchange is still unacknowledged."
 RULE = (
-    "one case = one burst: messages (submit offset, endpoint, CON/NON, reaction in {piggyback, empty ACK + separate response, ACK with a foreign response + separate response, Reset, synchronous send failure at the first retransmission, synchronous refusal of the message's very first transmission (also when its turn comes out of the backlog), a message that cannot be serialised (from the start, or only by the time its turn comes), silence, ICMP error} with delay class). "
+    "one case = one burst: messages (submit offset, endpoint, CON/NON, reaction in {piggyback, empty ACK + separate response, ACK with a foreign response + separate response, Reset, synchronous send failure at the first retransmission, synchronous refusal of the message's very first transmission (also when its turn comes out of the backlog), a message that cannot be serialised (from the start, or only by the time its turn comes), a message interface whose send() raises for the message, silence, ICMP error} with delay class). "
     "Non-trivial = at least one message was held back behind another exchange; distinct = distinct tuples of (endpoint, type, reaction, delay class, offset class)"
 )
 ASSUMPTIONS = ["default TransportTuning (MAX_RETRANSMIT 4) for all requests", "one-way latency 1 ms"]
-REQUIRED_MONITORS = {"first_tx_time": 300, "no_overlap": 300, "fifo": 100, "held_back_failed_with_head": 20, "non_not_delayed": 50, "other_endpoint_not_delayed": 50, "all_completed": 100, "backlog_invariant": 200, "unserialisable": 30, "unserialisable_in_queue": 10, "refused_first_in_queue": 10, "became_unserialisable_while_waiting": 10}
+REQUIRED_MONITORS = {"first_tx_time": 300, "no_overlap": 300, "fifo": 100, "held_back_failed_with_head": 20, "non_not_delayed": 50, "other_endpoint_not_delayed": 50, "all_completed": 100, "backlog_invariant": 200, "unserialisable": 30, "unserialisable_in_queue": 10, "refused_first_in_queue": 10, "became_unserialisable_while_waiting": 10, "send_raises": 30, "send_raises_in_queue": 10}
 
-REACTIONS = ["piggy", "empty+sep", "foreign-ack+sep", "rst", "silent", "icmp", "unreach-at-retx", "refused-first", "unserialisable", "unserialisable-later"]
+REACTIONS = ["piggy", "empty+sep", "foreign-ack+sep", "rst", "silent", "icmp", "unreach-at-retx", "refused-first", "unserialisable", "unserialisable-later", "send-raises"]
 DELAYS = {"now": 0.0, "short": 0.3, "after-retx": 3.5}
 LATER = 0.0005  # an "unserialisable-later" message becomes unserialisable this long after it was handed in
 OFFSETS = [0.0, 0.0, 0.0, 0.0, 0.01, 1.0, 5.0, 120.0]  # 120 s: after an unanswered exchange ahead has timed out
@@ -126,6 +126,21 @@ def run_burst(neps, msgs, seed, rep, case):
                 rec.update(mid=message.mid, mtype=int(message.mtype) if message.mtype is not None else None, token=bytes(message.token), remote=(message.remote.sockaddr[0], message.remote.sockaddr[1]), path=message.opt.uri_path)
 
         mman.send_message = send_message
+        # fault injection at the message interface boundary: a transport whose send() raises for a message (udp6
+        # reports its errors through error_received instead; other message interfaces do raise)
+        iface = mman.message_interface
+        orig_send = iface.send
+
+        def send(message):
+            try:
+                k = int(message.opt.uri_path[0][1:]) if message.code.is_request() and message.opt.uri_path else None
+            except ValueError:
+                k = None
+            if k is not None and msgs[k]["reaction"] == "send-raises":
+                raise OSError(90, "message interface refuses this message (injected)")
+            return orig_send(message)
+
+        iface.send = send
         inv = {"n": 0, "bad": None}
 
         def invariant():
@@ -232,7 +247,7 @@ def judge(box, msgs, res, rep, case):
                 # was waiting when the exchange ahead failed
                 rep.monitor("held_back_failed_with_head")
                 held_back += 1
-                if s["spec"]["reaction"] in ("unserialisable", "unserialisable-later"):
+                if s["spec"]["reaction"] in ("unserialisable", "unserialisable-later", "send-raises"):
                     # may be refused as early as it is handed in; at the latest it goes down with the rest
                     d = done_by_i.get(i)
                     if o is not None:
@@ -256,7 +271,14 @@ def judge(box, msgs, res, rep, case):
                 held_back += 1
             if s["spec"]["reaction"] == "unserialisable-later" and predicted > ts + LATER:
                 rep.monitor("became_unserialisable_while_waiting")
-            if s["spec"]["reaction"] == "unserialisable" or (s["spec"]["reaction"] == "unserialisable-later" and predicted > ts + LATER):
+                if o is not None:
+                    # (sent as it was when it was handed in: what the application does to its object afterwards
+                    # need not reach the message that waits; judged like any other message below)
+                    rep.count("changed_after_hand_in_sent_as_handed_in")
+            if s["spec"]["reaction"] == "send-raises":
+                rep.monitor("send_raises", 1)
+                rep.monitor("send_raises_in_queue", 1 if predicted > ts + 1e-12 else 0)
+            if s["spec"]["reaction"] in ("unserialisable", "send-raises") or (s["spec"]["reaction"] == "unserialisable-later" and predicted > ts + LATER and o is None):
                 # never reaches the wire: its request fails (with whatever the serialiser raised) when it is handed in
                 # or at the latest in the instant its turn comes, and the endpoint is as free as before
                 rep.monitor("unserialisable_in_queue", 1 if predicted > ts + 1e-12 else 0)
@@ -331,7 +353,7 @@ def judge(box, msgs, res, rep, case):
             continue
         if rq["done"] is None:
             rep.violation("request-never-completed", "a request neither completed nor failed by the end of the run", wit(spec=spec), case)
-        elif rq["done"][1] is not None and not isinstance(rq["done"][1], error.Error) and spec["reaction"] not in ("unserialisable", "unserialisable-later"):
+        elif rq["done"][1] is not None and not isinstance(rq["done"][1], error.Error) and spec["reaction"] not in ("unserialisable", "unserialisable-later", "send-raises"):
             rep.violation("request-failed-with-non-library-error", "a request failed with an exception outside the library's error hierarchy", wit(spec=spec, exc=repr(rq["done"][1])), case)
     inv = box["inv"]
     rep.monitor("backlog_invariant", inv["n"])
